@@ -45,6 +45,14 @@ def _spend(dur: float) -> None:
 def work(spec: dict):
     started = spec.get('started')
     if started:
+        # diagnostic only: the runner's watchdog can ask a stuck worker for its stacks (SIGUSR1)
+        try:
+            import faulthandler
+            import signal
+            globals()['_dump_file'] = open(started + '.dump', 'w')
+            faulthandler.register(signal.SIGUSR1, file=globals()['_dump_file'], all_threads=True)
+        except Exception:
+            pass
         tmp = started + '.tmp'
         with open(tmp, 'w') as f:
             f.write(str(os.getpid()))
